@@ -30,7 +30,7 @@ func pickU64(rng *chain.Rng, h int64) uint64 {
 
 func pickNear(rng *chain.Rng, h int64) uint64 { return uint64(h + int64(rng.Intn(7)) - 1) }
 
-var decDict = []string{"-1", "-1.000000000000000001", "-0.999999999999999999", "-2", "-0.5", "0", "0.000000000000000001", "0.01", "0.1", "0.5", "1", "1.5", "2", "10", "1000",
+var decDict = []string{"-1", "-1.000000000000000001", "-0.999999999999999999", "-2", "-0.5", "-0.25", "-0.75", "0", "0.000000000000000001", "0.01", "0.1", "0.5", "1", "1.5", "2", "10", "1000",
 	"1000000000000", "100000000000000000000000000000000000000", "-100000000000000000000000000000000000000"}
 
 func pickDecStr(rng *chain.Rng) string { return decDict[rng.Intn(len(decDict))] }
@@ -624,15 +624,19 @@ func C10(c Ctx) *report.Report {
 			// policy's first block, in its first block, inside, in its last block or in the block after it
 			start := e.Height + 1 + int64(rng.Intn(3))
 			end := start + 2*int64(1+rng.Intn(3)) - 1
-			m := &clptypes.MsgUpdatePmtpParams{Signer: e.Admin.Addr.String(), PmtpPeriodGovernanceRate: "0.1", PmtpPeriodEpochLength: 2, PmtpPeriodStartBlock: start, PmtpPeriodEndBlock: end}
+			// (the first policy's rate is positive or negative: rates add up over consecutive policies - findings F-29, F-30 - so a
+			// second message that sets a negative rate is judged against what this one leaves behind or will start from)
+			firstRate := []string{"0.1", "0.1", "-0.5", "-0.25", "-0.75", "-0.9"}[rng.Intn(6)]
+			m := &clptypes.MsgUpdatePmtpParams{Signer: e.Admin.Addr.String(), PmtpPeriodGovernanceRate: firstRate, PmtpPeriodEpochLength: 2, PmtpPeriodStartBlock: start, PmtpPeriodEndBlock: end}
 			mustOK(e.Tx(e.Admin, m), "start policy")
+			rep.Count("admin.first-policy-rate." + firstRate)
 			at := []int64{start - 1, start, start, start + 1, end, end + 1}[rng.Intn(6)]
 			if nb := int(at - e.Height); nb > 0 {
 				if d, p, w := runBlocks(e, rng, nb, nil, rep, nil); p != "" {
 					rep.Violate("C10/hook-panic/setup", p, map[string]interface{}{"where": w, "blocks": d})
 				}
 			}
-			cs.Second = fmt.Sprintf("a ratio-shifting policy over blocks %d..%d was scheduled first; the message below is delivered at height %d", start, end, e.Height)
+			cs.Second = fmt.Sprintf("a ratio-shifting policy of rate %s over blocks %d..%d was scheduled first; the message below is delivered at height %d", firstRate, start, end, e.Height)
 			where := "inside"
 			switch {
 			case e.Height < start:
